@@ -288,7 +288,7 @@ class C12(Check):
     level = "exploration"
     engine = "flosim"
     design_ref = "§6 C12"
-    rule = ("two plan families. (1) build-time clones: the main framer's frames clone one or two moot originals several times as insular "
+    rule = ("three plan families (the third, 4% of the plans: nested clones told apart only by the inodes of the main framer and its frames, inode-relative data at distinct inode paths and behaviour as one clone alone). (1) build-time clones: the main framer's frames clone one or two moot originals several times as insular "
             "('as mine') and named clones, the second original itself cloning the first (clones inside clones), originals using "
             "framer-relative data ('counter of framer') to drive their transitions, entry needs ('let me if counter of framer ...') and "
             "'done'. (2) run-time clones (40%): cloner frames 'rear' 1-3 originals into a host frame that may also hold build-time "
